@@ -204,9 +204,9 @@ def setAttr (k : PStr) (v : AttrVal) : List (PStr × AttrVal) → List (PStr × 
   | [] => [(k, v)]
   | (k', v') :: rest => if k' = k then (k, v) :: rest else (k', v') :: setAttr k v rest
 
-/-- ASCII `str.lower()` is enough here: the comparison is with the ASCII literal `content-type`, and the only non-ASCII
-    code point whose `lower()` is ASCII is U+212A KELVIN SIGN → `k`, U+0130 → `i̇` (two code points); neither letter
-    … `k` does not occur in `content-type`, and `İ`.lower() is not one character. -/
+/-- ASCII `str.lower()` is enough here: the comparison is with the ASCII literal `content-type`. The only non-ASCII code
+    points whose `lower()` contains an ASCII letter are U+212A KELVIN SIGN (→ `k`, which does not occur in `content-type`)
+    and U+0130 (→ `i` + U+0307, two code points), so no non-ASCII spelling lower-cases to the literal. -/
 def asciiLower (s : PStr) : PStr := s.map (fun c => if 65 ≤ c && c ≤ 90 then c + 32 else c)
 
 /-- `HTMLTreeBuilder.set_up_substitutions` (builder/__init__.py:642-694) on a parsed tag's attributes -/
